@@ -90,13 +90,14 @@ structure TState where
   accel : Deques := {}
   deriving Repr
 
-/-- `OverRelaxation` (`_MINIMUM_NUMBER_OF_ITERATES = 2`, `_MINIMUM_NUMBER_OF_RESIDUALS = 1`):
-    the first iterate is returned unchanged, then `x_{n+1} = ω·G(x_n) + (1-ω)·x_n = G(x_n) - (1-ω)·(G(x_n)-x_n)`. -/
-def relaxStep (omega : Rat) (d : Deques) (it r : Vec) : Vec × Deques :=
-  let d' : Deques := { its := push d.its 2 it, res := push d.res 1 r }
-  if d'.its.length ≥ 2 then
-    if omega = 1 then (it, d') else (vsub it (smul (1 - omega) r), d')
-  else (it, d')
+/-- `OverRelaxation` (`_MINIMUM_NUMBER_OF_ITERATES = 2`, `_MINIMUM_NUMBER_OF_RESIDUALS = 0`): the code
+    combines the last two iterates `G(xₙ)`, `G(xₙ₋₁)` it was given (not `xₙ`):
+    `x_{n+1} = ω·G(xₙ) + (1-ω)·G(xₙ₋₁)`; the first iterate is returned unchanged. -/
+def relaxStep (omega : Rat) (d : Deques) (it _r : Vec) : Vec × Deques :=
+  let d' : Deques := { its := push d.its 2 it, res := [] }
+  match d'.its with
+  | [gxn1, gxn] => if omega = 1 then (gxn, d') else (vadd (smul omega gxn) (smul (1 - omega) gxn1), d')
+  | _ => (it, d')
 
 def minIts : Accel → Nat
   | .none => 0 | .aitken => 1 | .secant => 2 | .adsq => 3
